@@ -679,6 +679,46 @@ class Sub:
 _Sub = Sub
 
 
+def bypass_decisions(s, h):
+    """Ways of reaching a return of summary s without passing block h (a loop header that should run on every path):
+    list of (switch block, condition, truth value under which h is bypassed | None).  Empty list: h is on every path."""
+    body = s.body
+
+    def reach_avoid(start):
+        seen = {start}
+        st = [start]
+        while st:
+            b = st.pop()
+            for x in body.successors(b):
+                if x != h and x not in seen:
+                    seen.add(x)
+                    st.append(x)
+        return seen
+    rets = set(body.return_blocks())
+    A = reach_avoid(0)
+    if not (A & rets):
+        return []
+    B = {b for b in A if reach_avoid(b) & rets}
+    out = []
+    for b in sorted(B):
+        t = body.blocks[b]['term']
+        if t['k'] != 'switch':
+            continue
+        edges = [(v, tb) for v, tb in t['targets']] + [('otherwise', t['otherwise'])]
+        live = [(v, tb) for v, tb in edges if body.blocks[tb]['term']['k'] != 'unreachable']
+        if all(tb in B for _, tb in live):
+            continue
+        vals = [v for v, _ in edges]
+        by = [v for v, tb in live if tb in B]
+        tv = None
+        if set(vals) == {0, 'otherwise'} and len(by) == 1:
+            tv = by[0] == 'otherwise'
+        out.append((b, s.switches.get(b), tv))
+    if not out:
+        out.append((None, None, None))
+    return out
+
+
 def debug_parity(ctx, R, anchors):
     """What a function does to program state must not depend on debug assertions being compiled in: the transitive write
     set and the set of crate functions reachable from each anchor are compared between the default extraction and one with
